@@ -663,13 +663,17 @@ void printAstTermNode(ASTNode const & astNode) {
     } else if (t == QID_T) {
             ASTNode const * symbolNode = (*(astNode.children->begin()));
             char const * name = symbolNode->getValue();
-            std::cout << name;
+            // the lexer strips the bars of a quoted symbol: put them back
+            char const * bar = symbolNode->getType() == QSYM_T ? "|" : "";
+            std::cout << bar << name << bar;
     } else if ( t == LQID_T ) {
         // Multi-argument term
         auto node_iter = astNode.children->begin();
-        const char* name = (**node_iter).getValue(); node_iter++;
+        const char* name = (**node_iter).getValue();
+        char const * bar = (**node_iter).getType() == QSYM_T ? "|" : "";
+        node_iter++;
         std::cout << "(";
-        std::cout << name << " ";
+        std::cout << bar << name << bar << " ";
         bool first = true;
         for (; node_iter != astNode.children->end(); node_iter++) {
             if (not first) {
